@@ -165,6 +165,45 @@ Theorem C16_time_difference_invalid_date_unknown :
 Proof. exact sem_timediff_invalid. Qed.
 Print Assumptions C16_time_difference_invalid_date_unknown.
 
+(* ---- ArrayIntersectLevel / ArraySubsetLevel over lists (DuckDB names; executable array functions) ---- *)
+Theorem C16_array_intersect :
+  forall P env cl cr n a b,
+    eval P (std_fenv []) env cl = VArr a -> eval P (std_fenv []) env cr = VArr b ->
+    sem P (std_fenv []) env (gen_arr_intersect "array_length" "list_intersect" cl cr (VInt n))
+    = doc_ge (inject_Z (Z.of_nat (length (arr_intersect a b)))) (inject_Z n).
+Proof. exact sem_arr_intersect_std. Qed.
+Print Assumptions C16_array_intersect.
+
+Theorem C16_array_intersect_is_set_intersection :
+  forall a b, NoDup (arr_intersect a b) /\ forall x, In x (arr_intersect a b) <-> In x a /\ In x b.
+Proof. intros a b. split; [apply arr_intersect_NoDup|intros x; apply arr_intersect_In]. Qed.
+Print Assumptions C16_array_intersect_is_set_intersection.
+
+(* duplicate-free arrays: TRUE exactly when the shorter array is contained in the longer one
+   (and is non-empty unless empty_is_subset) *)
+Theorem C16_array_subset :
+  forall P env emp cl cr a b,
+    eval P (std_fenv []) env cl = VArr a -> eval P (std_fenv []) env cr = VArr b -> NoDup a -> NoDup b ->
+    sem P (std_fenv []) env (gen_arr_subset "array_length" "array_intersect" emp cl cr) = of_bool (subset_doc emp a b).
+Proof. exact sem_arr_subset_std. Qed.
+Print Assumptions C16_array_subset.
+
+(* ---- DistanceInKMLevel: acos only ever sees a value in [-1, 1]; the level is the threshold test ---- *)
+Theorem C16_km_clip_in_domain :
+  forall P fenv env p q,
+    numQ (eval P fenv env p) = Some q ->
+    exists v, numQ (eval P fenv env (km_clipped p)) = Some v /\ (-1 <= v <= 1)%Q /\ ((-1 <= q <= 1)%Q -> (v == q)%Q).
+Proof. exact km_clip_in_domain. Qed.
+Print Assumptions C16_km_clip_in_domain.
+
+Theorem C16_km_level :
+  forall P fenv env fty latl latr lngl lngr t d tq,
+    fenv "acos"%string [eval P fenv env (km_clipped (km_partial latl latr lngl lngr))] = VNum d ->
+    (forall x, fenv ("cast:" ++ fty)%string [VNum x] = VNum x) -> numQ t = Some tq ->
+    sem P fenv env (gen_km fty false latl latr lngl lngr t) = doc_le (d * 6371)%Q tq.
+Proof. exact sem_km. Qed.
+Print Assumptions C16_km_level.
+
 (* ---- And / Or / Not follow SQL three-valued logic ---- *)
 Theorem C16_and_or_not_follow_3vl :
   forall P fenv env,
